@@ -605,6 +605,9 @@ func main() {
 		sets()
 		streamSets()
 		mapTwins(maxLen)
+		if pass == 0 {
+			typedSlices()
+		}
 		if pass > 0 {
 			inputs = in0 // operand tuples are counted once
 		}
